@@ -152,9 +152,9 @@ func runC07(c *report.Ctx) {
 	mustPass(c, addForImp, an.Set(insForImp), "insertMinedTxForImporting")
 	mustPass(c, addForImp, an.Set(addCredits), "UtxoStore.AddCredits")
 	mustPass(c, insForImp, an.Set(updMinedBal), "updateMinedBalance")
-	if ai != nil && len(ai.AnonFuncs) > 0 {
+	if ai != nil && len(closuresOf(p, ai)) > 0 {
 		var cl *ssa.Function
-		for _, af := range ai.AnonFuncs {
+		for _, af := range closuresOf(p, ai) {
 			if addForImp != nil && len(calls(af, addForImp)) > 0 {
 				cl = af
 			}
